@@ -18,7 +18,7 @@ CHECKS = {
          "C03.union/intersect/setdiff/symdiff/operands_unchanged/add/remove/addSet_count/removeSet_count/range/len/clone/from*/cartesian proved for any pairing of implementations and any reachable internal layout of the concurrent set (C03.sync_reachable_inv). Tie: programs over mixed handles incl. self-aliased calls, layouts aged and observed via the verif hook.",
          "§8 C03"),
  "C04": ("refinement proofs (Lean 4): (seq) the read/dirty/expunged state machine refines a map for all call sequences; (conc) forward simulation of the step-level transition system of map.go (one step = one atomic action; any number of goroutines) into a relaxed atomic map whose histories are proved linearizable => linearizability for ALL schedules; Range theorems for all schedules; real step traces replayed label for label in that transition system; atomic sites + hooks regenerated from the source",
-         "C04.conc_linearizable (every execution of the step-level model Model.SyncMapConc - 41 program points = the atomic sites of map.go, any number of goroutines, any operations, every interleaving - has a linearizable Load/Store/LoadOrStore/LoadAndDelete/Delete history), conc_sim_step, conc_inv, conc_no_nil_map_write, conc_lock_exclusive, conc_structure, conc_spec_is_seq_spec; Range under all schedules: conc_range_once (at most once per key), conc_range_value (the value passed for k is k's abstract value at that moment of the call), conc_range_skip, conc_range_snapshot (every key present when the loop starts is in the snapshot), conc_range_todo_held; sequential half: seq_inv/seq_step/seq_refines/seq_abs/range_seq/range_prefix. Tie: (1) step-level traces of the real code under the controlled scheduler (every schedule with <= 2 preemptions of a program catalogue, random programs/schedules; ~900k lines quick, >10M thorough) replayed in Model.SyncMapConc by the judge C04conc (same hook label, step enabled, announced loop key available, equal result); (2) the same executions and native runs judged for the property itself (linearizable + Range predicate) by ObjLin; (3) gen_all_atomic_sites_hooked / gen_sites_are_the_models / model_labels_are_sites about Gen.MapHooks regenerated from map.go on every run; (4) sequential histories with the internal layout compared after every call; (5) the simulation relation evaluated along random runs of the model (C04inv); (6) acceptance is theorem-backed: the judge's map-mode replay is the pure function Model.SyncMapTrace.replay, C04.trace_accept_sound / judge_accept_sound (an accepted trace IS an execution of the model) and accepted_trace_linearizable (hence its API history is linearizable); (7) gen_race_discipline: static lock/atomic discipline of map.go regenerated from the source.",
+         "C04.conc_linearizable (every execution of the step-level model Model.SyncMapConc - 41 program points = the atomic sites of map.go, any number of goroutines, any operations, every interleaving - has a linearizable Load/Store/LoadOrStore/LoadAndDelete/Delete history), conc_sim_step, conc_inv, conc_no_nil_map_write, conc_lock_exclusive, conc_structure, conc_spec_is_seq_spec; Range under all schedules: conc_range_once (at most once per key), conc_range_value (the value passed for k is k's abstract value at that moment of the call), conc_range_skip, conc_range_snapshot (every key present when the loop starts is in the snapshot), conc_range_todo_held, conc_range_untouched (TRACE level: a key whose abstract value is v in every state from the step that takes the snapshot until the call returns is passed to the callback with v; with conc_step_no_expunge: no single step turns a value entry into an expunged one); sequential half: seq_inv/seq_step/seq_refines/seq_abs/range_seq/range_prefix. Tie: (1) step-level traces of the real code under the controlled scheduler (every schedule with <= 2 preemptions of a program catalogue, random programs/schedules; ~900k lines quick, >10M thorough) replayed in Model.SyncMapConc by the judge C04conc (same hook label, step enabled, announced loop key available, equal result); (2) the same executions and native runs judged for the property itself (linearizable + Range predicate) by ObjLin; (3) gen_all_atomic_sites_hooked / gen_sites_are_the_models / model_labels_are_sites about Gen.MapHooks regenerated from map.go on every run; (4) sequential histories with the internal layout compared after every call; (5) the simulation relation evaluated along random runs of the model (C04inv); (6) acceptance is theorem-backed: the judge's map-mode replay is the pure function Model.SyncMapTrace.replay, C04.trace_accept_sound / judge_accept_sound (an accepted trace IS an execution of the model) and accepted_trace_linearizable (hence its API history is linearizable); (7) gen_race_discipline: static lock/atomic discipline of map.go regenerated from the source.",
          '§8 C04, Appendix F.1'),
  "C06": ("refinement proof (Lean 4): pointer-level heap models of list.go / ring.go refine sequence / cycle-partition specs; three-way correspondence with container/list, container/ring",
          "C06.list_refines (all op sequences, under NoInitOnNonEmpty), C06.ring_refines (all op sequences, same-ring Link included), list_wf/ring_wf. Tie: the fork, the standard library and the Lean model+spec run in lock-step on the same histories; a fork-vs-stdlib difference is the counterexample verbatim.",
@@ -76,7 +76,7 @@ LEVEL_NOTES = {
  "C17": "sync.Once is modelled by its algorithm (done flag + mutex); Go memory-model visibility of the result fields is trusted (follows from sync.Once's happens-before).",
  "C18": "atomic.Value and sync.Pool are modelled by contract; race freedom is a theorem about the model's plain-access sets tied to the source by regenerated facts, plus race-detector observation.",
  "C19": "Channels, select, timers, contexts by contract; wall-clock timing is not modelled (a timer is a nondeterministic choice); scenario systems assume the timer cannot fire before the helper first polls its select (promptPoll), the theorems do not.",
- "C04": "Proved for all schedules and all single-goroutine histories (unbounded). NOT proved / modelled: data-race freedom in the Go-memory-model sense (the model is sequentially consistent over atomic steps, mutex-protected plain accesses and Unlock merged into the preceding atomic step; races are only observed with the race detector: a report is a violation, silence proves nothing); the trace-level reading of Range's third clause ('untouched for the whole call => visited') follows from conc_range_snapshot + conc_range_todo_held + conc_range_value but is not stated as one theorem; atomic.Value, sync.Mutex, unsafe.Pointer by contract; zero-size value types share one pointer identity (model switch zst, theorems hold for both).",
+ "C04": "Proved for all schedules and all single-goroutine histories (unbounded). NOT proved / modelled: data-race freedom in the Go-memory-model sense (the model is sequentially consistent over atomic steps, mutex-protected plain accesses and Unlock merged into the preceding atomic step; races are only observed with the race detector: a report is a violation, silence proves nothing); early termination of Range by the callback is modelled in the sequential half only (range_prefix); atomic.Value, sync.Mutex, unsafe.Pointer by contract; zero-size value types share one pointer identity (model switch zst, theorems hold for both).",
 }
 REASONS = {}
 
